@@ -198,3 +198,42 @@ def key(m) -> str:
 
 def same(a, b) -> bool:
     return key(a) == key(b)
+
+
+def diff_items(a, b, limit=12):
+    """Structured differences: list of [path, left, right] (left/right None + marker when missing)."""
+    out = []
+    _diff_items(a, b, '', out, limit)
+    return out
+
+
+def _diff_items(a, b, path, out, limit):
+    if len(out) >= limit:
+        return
+    if type(a) is not type(b):
+        out.append([path, a, b])
+    elif isinstance(a, dict):
+        for k in sorted(set(a) | set(b)):
+            if k not in a or k not in b:
+                out.append([f'{path}.{k}', a.get(k, '<missing>'), b.get(k, '<missing>')])
+            else:
+                _diff_items(a[k], b[k], f'{path}.{k}', out, limit)
+    elif isinstance(a, list):
+        if len(a) != len(b) or (a and not isinstance(a[0], (dict, list))):
+            if key(a) != key(b):
+                out.append([path, a, b])
+        else:
+            for i, (x, y) in enumerate(zip(a, b)):
+                _diff_items(x, y, f'{path}[{i}]', out, limit)
+    elif a != b:
+        out.append([path, a, b])
+
+
+def partition_refs(m):
+    """DBML cannot express the relative order of inline and standalone references (inline ones live in
+    their table): compare the two sub-sequences separately."""
+    m = dict(m)
+    m['refs_inline'] = [r for r in m['refs'] if r['inline'] is True]
+    m['refs_standalone'] = [r for r in m['refs'] if r['inline'] is not True]
+    del m['refs']
+    return m
